@@ -565,11 +565,43 @@ def verify_function(key, src=None, timeout_ms=8000, verbose=False, jobs=None, ha
 
 
 def model_summary(eng, model):
+    """parameter values of a counter-model: printable form and a JSON tree for native replay"""
     out = {}
+    tree = {}
     for d in model.decls():
         if d.arity() == 0 and d.name().startswith("p_"):
             try:
                 out[d.name()[2:]] = str(model[d])
+                tree[d.name()[2:]] = term_to_json(model[d])
             except Exception:
                 pass
+    out["__tree__"] = tree
     return out
+
+
+def term_to_json(t, depth=0):
+    if depth > 40:
+        return {"$c": "?"}
+    if z3.is_int_value(t):
+        return {"$c": "int", "v": t.as_long()}
+    if z3.is_rational_value(t):
+        return {"$c": "real", "n": t.numerator_as_long(), "d": t.denominator_as_long()}
+    if z3.is_true(t) or z3.is_false(t):
+        return {"$c": "bool", "v": z3.is_true(t)}
+    if z3.is_string_value(t):
+        return {"$c": "str", "v": t.as_string()}
+    if z3.is_app(t):
+        k = t.decl().kind()
+        if k == z3.Z3_OP_SEQ_EMPTY:
+            return {"$c": "seq", "items": []}
+        if k == z3.Z3_OP_SEQ_UNIT:
+            return {"$c": "seq", "items": [term_to_json(t.arg(0), depth + 1)]}
+        if k == z3.Z3_OP_SEQ_CONCAT:
+            items = []
+            for ch in t.children():
+                j = term_to_json(ch, depth + 1)
+                items.extend(j.get("items", []))
+            return {"$c": "seq", "items": items}
+        if k == z3.Z3_OP_DT_CONSTRUCTOR:
+            return {"$c": t.decl().name(), "args": [term_to_json(a, depth + 1) for a in t.children()]}
+    return {"$c": "?", "text": str(t)[:80]}
